@@ -20,6 +20,48 @@ CHECKS = {
          'tags, every node the k-th grammar result for its children, allowed root, no unary step at the full span); retrieve_tree consumes tokens left to right. Tied by trace validation and '
          'by exact comparison of returned Trees with the model; Tree-level oracle on the real depccg.parsing.run (real en/ja grammars, seen-rule filter, synthetic grammars).',
          ASTAR_NOTE + GLUE_NOTE, 'Coq invariant proof + trace validation + Tree-level re-derivation oracle', 'DESIGN.md §4 C02'),
+ 'C03': ('Soundness and completeness of the English combinators proved in Coq over the GENERATED grammar (GenEn.v, translated from grammar/en.py on every run): every result of apply_binary_rules on '
+         'well-formed categories of the English feature system is justified by the declarative schema its label names (EnSpec.Justified_en, written from the property text), head always left, bx/gbx '
+         'never over a bare N/NP argument, a modifier functor returns the other category, features come from the inputs; conversely each schema with identical matched parts yields its result. '
+         'Translation tied to the real functions by differential cases (inventory firing pairs, small categories, schema instances, rule closure) and an independent Python schema oracle.',
+         'Trusted: translator gen_grammar.py, Unify.v model (C06), Coq kernel. Reading of the N/NP restriction: the restriction tests the matched argument as the rule sees it (after feature matching); recorded in DESIGN.md.',
+         'Coq proof over translated grammar (on top of the C06 unification lemmas) + differential cases + schema oracle', 'DESIGN.md §4 C03'),
+ 'C04': ('As C03 for the Japanese grammar (GenJa.v from grammar/ja.py): all 11 symbols sound and complete w.r.t. JaSpec.Justified_ja (crossed slash kept, outer arguments re-wrapped with the primary input\'s '
+         'slashes, whole-triple instantiation from the inputs only, head always right, SSEQ between root categories), unary labels ADNext/ADNint/ADV0/ADV1/ADV2/OTHER follow the shape, each label '
+         'reached on a concrete category. Differential cases incl. non-modifier instances of the deep patterns, independent oracle.',
+         'Trusted: translators gen_grammar.py, gen_jaroots.py; Unify.v; Coq kernel. Domain: categories whose atoms carry feature triples.',
+         'Coq proof over translated grammar + differential cases + schema oracle', 'DESIGN.md §4 C04'),
+ 'C07': ('Coq models with independent decoders and round-trip theorems for conll (dependency column: one root, non-head child attaches to head child, heads inside the parent span), json, auto_extended '
+         '(field and text level), deriv (interval-stack reader, structural part), batch numbering; the read-back theorems of auto/ptb/ja/xml/jigg_xml are C08/C20/C15. html and prolog have no Coq model: '
+         'they are covered by independent Python decoders only (stated). Oracle: Python decoders for all eleven formats cross-compared with the encoded tree on every run.',
+         'Trusted: Fmt*.v models (exact-string correspondence with the real encoders), fmt_dec.py decoders, lxml/json/html.parser libraries. PARTIAL for html and prolog (oracle only) and for the raw-text layer of deriv.',
+         'Coq codec proofs + exact-output correspondence + eleven independent decoders', 'DESIGN.md §4 C07'),
+ 'C08': ('Character-level Coq model of auto_of, denormalize, conll fragments and the cursor reader _AutoLineReader (fuel = line length): read_auto(print_auto t) = canon t for every well-formed tree, '
+         'reprint identity, CoNLL fragments concatenate to the AUTO line, _fix inert on printed categories (tables generated from the source). Exact correspondence with the real printer/reader through '
+         'temp files incl. a malformed stream; independent round-trip oracle.',
+         'Trusted: Auto.v model, gen_auto.py/gen_tables.py, Category.parse model of C05, file/line splitting of Python.', 'Coq proof (cursor reader, induction on trees) + exact correspondence + oracle', 'DESIGN.md §4 C08'),
+ 'C11': ('Theorems: chunks concatenate back to the batch and results read in task order equal map parse batch; the memo layer (category table + rule cache) as a state machine keeps every cached entry '
+         'equal to what the pure grammar returns now, ids are never reassigned, decoded answers are history independent; the implementation-level search is invariant under bi-unique renaming of '
+         'category handles (Forall2 simulation: related reachable states, position-wise related results with equal scores); failures are local. PARTIAL: the composition of memo and search into one '
+         'end-to-end statement is conditional, the type-check-first part has no theorem (oracle only), OS scheduling/pickling of multiprocessing is exercised, not proved. Oracle: real depccg.parsing.run '
+         'with forking Pool, permutations/rotations/subsets/warming, failing sentences, malformed shapes with zero rule calls.',
+         'Trusted: Glue.v/GlueMemo.v/AStarEquiv.v models (memo replay of logged callbacks, chunks exact), decy + driver to run the real code.', 'Coq simulation + state-machine invariants + differential batch oracle', 'DESIGN.md §4 C11'),
+ 'C13': ('Coq theorems over Cat.v: == is structural equality, equal values hash equally for every string/tuple hash and hashed containers find exactly the == keys, string comparison holds exactly for '
+         'the canonical text (unique by show-injectivity), ^ is an equivalence = equal skeletons, strictly coarser than ==, clear_features erases exactly the named features everywhere, idempotent, '
+         'no-op when nothing matches. 700k differential pair/text/clear cases per run and an independent oracle incl. real set/dict lookups.',
+         'Trusted: Cat.v/CatValue.v models (abstract hash: the dataclass hash is hash(tuple(fields))), Coq kernel.', 'Coq proof + exhaustive small-value differential cases + oracle', 'DESIGN.md §4 C13'),
+ 'C15': ('Infoset-level Coq model of xml_of, to_jigg_xml, read_xml, read_jigg_xml, build_ccg_tree, normalize_token(s) with theorems: C&C XML reads back to the same tree, labels and five token attributes; '
+         'Jigg XML of Japanese derivations reads back to the same categories/shape/words; Jigg sentences are self-contained (distinct ids across n-best, references resolve, offsets tile, one root); '
+         'build_ccg_tree is an isomorphism with the written rule labels; normalize_token output is clean. Known finding K01 (tokens already starting with _ pass through) is reported as KNOWN-FINDING.',
+         'Trusted: Xml.v model (exact infoset correspondence), lxml serialisation/parsing, stubs to import ccg2lambda_tools.', 'Coq proof over infoset model + exact correspondence through real files + oracle', 'DESIGN.md §4 C15'),
+ 'C17': ('Coq theorems over Filter.v: every entry after apply_category_filters is the original value if the word is not a key or the category is listed, else the large negative value; row counts, token '
+         'order and dependency scores untouched; errors (shape/form/KeyError) leave the arrays unchanged and the shape check comes first. Shipped data (regenerated each run): all 3863 category strings '
+         'parse to well-formed values and re-read, the 418 dictionary categories are in targets.en, inventories duplicate-free (vm_compute over the generated lists).',
+         'Trusted: Filter.v model (exact correspondence incl. array state after the call), gen_data.py, jsonnet subset reader.', 'Coq proof + computed facts over generated data + differential cases + oracle', 'DESIGN.md §4 C17'),
+ 'C20': ('Coq models of ptb_of/_parse_ptb and ja_of/_JaCCGLineReader with theorems: PTB and bank lines read back to the same categories, shape, words (and rule symbols), every proper prefix of a PTB '
+         'line and every unbalanced line is rejected, annotated bank texts ({..} blocks, _suffix) read the same. Domain boundaries are proved as _refuted witnesses (escape collision on words containing '
+         '-LRB-/-RRB- spellings, the bank word -RCB-, the symbol OTHER) and excluded from the oracle. Exact correspondence through temp files incl. malformed streams.',
+         'Trusted: Ptb.v/JaBank.v models, gen_c20.py, Category.parse model of C05.', 'Coq proof (stack machine / cursor reader) + exact correspondence + truncation oracle', 'DESIGN.md §4 C20'),
  'C05': ('Machine-checked Coq theorems (P_C05.v) over a hand-written model of cat.py: parse(show c)=c for every well-formed value, every well-formed text with arbitrary redundant '
          'round/angle brackets and blanks reads as its value, two unbracketed slashes at a level are rejected, show is injective; the punctuation list and the split class come from the '
          'translator on every run and the model is tied to Category.parse/str by differential execution inside coqc.',
